@@ -996,6 +996,12 @@ class Interp:
         if has_sym(args) or has_sym(tuple(kwargs.values())):
             if issubclass(cls, BaseException):
                 return cls(*args, **kwargs)
+            import functools as _ft
+            import itertools as _it
+
+            if cls in (_ft.partial, _it.chain, _it.islice, _it.repeat):
+                # containers of callables / iterables: they never look at the values
+                return cls(*args, **kwargs)
             has_py = isinstance(init, types.FunctionType) or isinstance(new, (types.FunctionType, staticmethod))
             if has_py and cls.__module__ != "builtins":
                 return cls(*args, **kwargs)
